@@ -25,8 +25,15 @@ type Panic struct {
 
 func (p *Panic) Error() string { return fmt.Sprintf("panic: %v", p.Value) }
 
-// Call runs f and converts a panic into a *Panic.
+// Call runs f and converts a panic into a *Panic. When a test has announced
+// its current case (SetCurrent) and no guarded call is in flight yet, the
+// call is also watched for hangs and heap blow-ups on behalf of that case.
 func Call(f func()) (p *Panic) {
+	if r := current.Load(); r != nil && cur.Load() == nil {
+		c := &inflight{start: time.Now(), render: *r, budget: 1 << 24}
+		cur.Store(c)
+		defer cur.CompareAndSwap(c, nil)
+	}
 	defer func() {
 		if v := recover(); v != nil {
 			p = &Panic{Value: v, Stack: string(debug.Stack())}
@@ -34,6 +41,18 @@ func Call(f func()) (p *Panic) {
 	}()
 	f()
 	return nil
+}
+
+var current atomic.Pointer[func() []byte]
+
+// SetCurrent announces how to render the case a test is working on, for the
+// watchdog; nil clears it.
+func SetCurrent(render func() []byte) {
+	if render == nil {
+		current.Store(nil)
+		return
+	}
+	current.Store(&render)
 }
 
 type inflight struct {
